@@ -74,6 +74,8 @@ pub fn reference(cfg: &Config, sni: &str, alpn: &[Vec<u8>]) -> Want {
     Want::Select { chan, host, creds, proto }
 }
 
+static SAMPLES: std::sync::Mutex<Vec<Value>> = std::sync::Mutex::new(Vec::new());
+
 struct Certs {
     infos: HashMap<String, (String, String, Vec<u8>)>,
 }
@@ -161,7 +163,7 @@ fn judge(cfg: &Config, certs: &Certs, sni: &str, alpn: &[Vec<u8>], got: &Result<
             if m.channel != *chan { bad.entry(format!("wrong channel {:?} instead of {:?}", m.channel, chan)).or_insert_with(witness); }
             else if !cert_ok { bad.entry("certificate of another host served".to_string()).or_insert_with(witness); }
             else if m.protocol != *proto { bad.entry(format!("wrong protocol for the {:?} channel: {:?} instead of {:?}", chan, m.protocol, proto)).or_insert_with(witness); }
-            else if let Some(c) = creds { if m.sni_auth_creds != *c { bad.entry("wrong SNI credentials label".to_string()).or_insert_with(witness); } else { local.tally(&format!("select: {:?}/{:?} as expected", chan, proto), 1); } }
+            else if let Some(c) = creds { if m.sni_auth_creds != *c { bad.entry("wrong SNI credentials label".to_string()).or_insert_with(witness); } else { local.tally(&format!("select: {:?}/{:?} as expected", chan, proto), 1); if local.evals % 20011 == 3 { local.tallies.insert("__sample__".into(), 0); SAMPLES.lock().unwrap().push(witness()); } } }
         }
     }
 }
@@ -203,7 +205,8 @@ fn l0(rep: &Arc<Reporter>, args: &Args) {
         }
         (local, bad)
     }});
-    for (l, b) in results { for (s, d) in b { rep.violation(&s, d); } l.merge_into(rep); }
+    for (mut l, b) in results { for (s, d) in b { rep.violation(&s, d); } l.tallies.remove("__sample__"); l.merge_into(rep); }
+    for s in SAMPLES.lock().unwrap().drain(..).take(4) { rep.sample(s); }
     // validation: duplicates across classes and unloadable files must be rejected
     let c = &certs;
     let dup = TlsHostsSettings::builder().main_hosts(vec![host(c, "a", vec![])]).ping_hosts(vec![host(c, "a", vec![])]).build();
